@@ -1170,3 +1170,42 @@ PROPS["C14"].roles += [("zero partitions", "counter-zero-partitions"), ("outside
 PROPS["C14"].functions.append("counter::CountComputer: partition table length, partition index and init()'s n_parts computation - extracted expressions")
 PROPS["C14"].outside = [o for o in PROPS["C14"].outside if not o.startswith("the partition index")] + [
     "(d) is decided on expressions extracted from counter/src/lib.rs, not on count_chunk itself (rayon workers, scc map, file I/O); thread count 0 is excluded (no worker, the index is never evaluated)"]
+
+
+# C09 inductive step
+def c09_step_instances(tier):
+    out = []
+    pairs = [(2, 1, 6), (3, 2, 6), (3, 3, 6), (4, 2, 7)] if tier == "quick" else [(1, 1, 6), (2, 1, 8), (2, 2, 8), (3, 2, 8), (3, 3, 8), (4, 2, 9), (4, 1, 8), (5, 3, 9), (8, 5, 10), (31, 31, 33), (31, 28, 33)]
+    for (w, m, n) in pairs:
+        us = [("kmer/src/minimiser.rs", BUFF_LOOP, w - m + 3)]
+        out.append(Inst("c09_step_w%d_m%d_n%d" % (w, m, n), "verif_c09i", "kmer", "c09_step::<%d, %d, %d>()" % (w, m, n), max(n + 3, 7, m + 2),
+                        {"clause": "ONE INDUCTIVE STEP from any state satisfying the functional invariant: the item returned is the oracle's next maximal run, invariant re-established",
+                         "w": w, "m": m, "max_len": n, "len": "symbolic 0..=%d" % n, "state": "symbolic (functional invariant assumed)",
+                         "histories": "any number of next() calls (by induction with c09_base)"},
+                        core=(w <= 3 and n <= 6), timeout=3000, cost=200.0 * n * (w - m + 2), unwindset=us))
+        out.append(Inst("c09_base_w%d_m%d_n%d" % (w, m, n), "verif_c09i", "kmer", "c09_base::<%d, %d, %d>()" % (w, m, n), max(n + 3, 7, m + 2),
+                        {"clause": "base case: new() satisfies the functional invariant", "w": w, "m": m, "max_len": n},
+                        core=(w <= 3 and n <= 6), timeout=900, cost=5.0))
+    return out
+
+
+_c09_whole = c09_instances
+
+
+def c09_instances(tier, seed):  # noqa: F811
+    return _c09_whole(tier, seed) + c09_step_instances(tier)
+
+
+PROPS["C09"].modules += [
+    Module("kmer", "verif_c18s", "harness/kmer/verif_c18s.rs", parent="minimiser"),
+    Module("kmer", "verif_c09i", "harness/kmer/verif_c09i.rs", parent="minimiser"),
+]
+PROPS["C09"]._instances = c09_instances
+PROPS["C09"].roles += [
+    ("(from new) the iterator's runs differ", "runs-differ-from-new"),
+    ("state invariant", "invariant-not-inductive"),
+]
+PROPS["C09"].functions += ["(inductive step) one next() from an arbitrary state satisfying the functional invariant; private fields set/read by an injected child module"]
+PROPS["C09"].assumptions += [
+    "inductive-step instances: the pre-state is ANY state satisfying the functional invariant of harness/kmer/verif_c09i.rs (inv), which the same instances prove inductive (base case c09_base_*, step c09_step_*); w-m+1 <= 4",
+]
